@@ -82,3 +82,16 @@ Example C03_analyze_unsolvable_example :
   let tr := [mkT (VSol 1, false) 1 3; mkT (VRoot, true) 1 0] in
   unsolvable db tr 1 = Some ([1; 2]%N, true).
 Proof. vm_compute. reflexivity. Qed.
+
+(* the side condition (second component true) holds by itself wherever the solver calls
+   analyze_unsolvable: on a one-level trail with the root at the bottom, every entry justified
+   by its clause, a falsified conflicting clause and derivations recorded from older clauses
+   (Cdcl/TrailLevels.v); Cdcl/SolverLevels.v proves that these hold at every such call of the
+   solver model (C02_solver_model_side_conditions_hold) *)
+From Resolvo Require Import Cdcl.TrailLevels.
+Theorem C03_analyze_unsolvable_side_condition : forall db tr conf core ok,
+  unsolvable db tr conf = Some (core, ok) ->
+  Rooted tr -> tnd tr -> sortedL tr -> justL db tr -> (top_level tr <= 1)%N -> why_older db ->
+  (forall c, nth_error db (N.to_nat conf) = Some c -> falsified tr (cl_lits c) = true) ->
+  ok = true.
+Proof. exact unsolvable_ok. Qed.
